@@ -82,7 +82,8 @@ class C08(Check):
                   "is compared with the real operator<< by the driver only (exercised, not proved), other argument types, stream "
                   "manipulators and locales are not covered. std::regex's search for the literal '{}' is modelled as first occurrence "
                   "(find); the correspondence is bounded-exhaustive + sampled, not proved. Only the char instantiation of the formatter "
-                  "is exercised (not wchar_t/char16_t/char32_t or the _nf literal); what() is compared for NUL-free messages only")
+                  "is exercised (nitro::format(std::string) and nitro::format(const char*); not wchar_t/char16_t/char32_t, not the _nf "
+                  "literal); what() is compared for NUL-free messages only")
     rule = ("exhaustive: every format string over {'{','}','a'} up to a length bound (6 quick, 8 thorough) x every argument count "
             "0..k+1 (k = number of placeholders) x every argument tuple over {\"\", x, {}, {, }} x two call styles (a chain of %, one "
             "args(...) call) plus a random %/args(...)/args() mixture for tuples of >= 2 arguments, and for the exact argument count "
